@@ -19,6 +19,7 @@ import proxyrig as pr
 LEVEL = "model_checking"
 KNOWN = []          # D11 was repaired (fix commit in /repo, see notes/C16.md); nothing open
 TEST = "TestVerifC16Replay"
+STALE_MS = 25000   # see judge(): ResponseHeaderTimeout of the proxy's transport is 30 s
 
 # Hand-picked targets for the goal-directed walk of the dot dump: (capacity,
 # name, [edge-label prefixes to be taken in this order]).  The walk continues
@@ -86,7 +87,7 @@ def gen_plans(chk, quick):
     del graphs
     # sampled behaviours
     budget = 58 if quick else 115
-    per_cap = 2 if quick else 6
+    per_cap = 2 if quick else 10
     for cap in (1, 2, 3):
         sims = pr.simulate(chk, "Gen_sim.cfg", 40 if quick else 150, chk.seed * 1000 + cap, N=cap,
                            MaxSess=6 if quick else 10, MaxNoOffer=1 if quick else 2, MaxTimeouts=1 if quick else 2)
@@ -195,8 +196,16 @@ def judge(out):
         return "ok", None, None
     if verdict == "invariant":
         return "violation", "C16/%s/exit=%s" % (detail, context(ev)), "invariant %s fails on the recorded execution" % detail
-    # rejected by the model of the code: ask the as-is model which property is at stake
+    # rejected by the model of the code
     idx = (detail or {}).get("unexplained", 0)
+    dv = [e for e in ev if e.get("ev") == "diverged"]
+    if dv and (detail or {}).get("event", {}).get("t", 0) >= dv[0].get("since", 0) + STALE_MS:
+        # the first unexplained event happened long after the scheduler had begun to wait in vain for a step:
+        # from then on the rig's own requests expire (a held poll times out after 30 s in the proxy's
+        # transport), which says nothing about the proxy
+        return "diverged", "C16/diverged/%s/exit=%s" % (dv[0].get("act"), context([e for e in ev if e.get("t", 0) < dv[0].get("since", 0) + STALE_MS])), \
+            "the proxy never took step %s of the behaviour (%s)" % (dv[0].get("act"), dv[0].get("why"))
+    # ask the as-is model which property is at stake
     v2, d2, _ = pr.validate(ev, cap, out.plan["pattern"], out.plan["allow"], asis=True)
     if v2 == "invariant":
         return "violation", "C16/%s/exit=%s" % (d2, context(ev, idx)), \
